@@ -570,6 +570,9 @@ def actuate_door(
 
     position = state.agent.front()
 
+    if not state.grid.area.contains(position):
+        return 0.0
+
     door = state.grid[position]
     if not isinstance(door, Door):
         return 0.0
